@@ -39,7 +39,7 @@ def main():
         if internal:
             return eval_internal(work, repo, patch, demo, demo_dir, meta, sid, props)
         mod = module_of(demo_dir)
-        skip = "-skip TestThrottling" if mod == "pipe" else ""     # wall-clock test of the repository, flaky under load
+        skip = "-skip 'TestThrottling|TestFMap/Cancel'" if mod == "pipe" else ""     # wall-clock / scheduling-dependent tests of the repository, flaky on the clean tree     # wall-clock test of the repository, flaky under load
         testcmd = "go test -mod=mod -count=1 %s ./..." % skip
         res = {}
         # clean tree
